@@ -88,6 +88,9 @@ def plume_spec(f, sph, x, y, depth):
             a = ax[i] + fr * (ax[i + 1] - ax[i])
             e = ec[i] + fr * (ec[i + 1] - ec[i])
             d = (th[i + 1] - th[i] + PI) % (2 * PI) - PI      # shorter arc
+            if abs(abs(d) - PI) < 1e-9 and e > 0:
+                # a jump of exactly half a turn: both arcs are equally short, the direction is not determined
+                return None if f.get("_want_v") else (False, 0.0)
             t = th[i] + fr * d
         b = a * math.sqrt(1 - e * e)
         xr = (px - c[0]) * math.cos(t) + (py - c[1]) * math.sin(t)
